@@ -31,15 +31,27 @@ impl Prop for C07T {
         "C07"
     }
     fn budget(&self, thorough: bool) -> u64 {
-        if thorough { 2_000_000 } else { 40_000 }
+        if thorough { 3_000_000 } else { 200_000 }
     }
     fn generate(&self, seed: u64, thorough: bool) -> Scenario {
         let mut rng = Rng::new(seed);
         let (iface, cap) = pick_iface(&mut rng, &[Family::Tree, Family::Tree, Family::Tree, Family::Zoo, Family::Queue]);
         let m = Model::of(iface);
         let n = *rng.pick(simcore::spec::IFACES[iface].ns);
-        let (stream, _) = any_stream(&mut rng, &m, n, if thorough { 200 } else { 120 });
+        let sweep = rng.chance(1, if thorough { 40 } else { 400 });
+        let (mut stream, _) = any_stream(&mut rng, &m, n, if thorough { 200 } else { 120 });
+        if sweep {
+            // short stream: every composition of its length into read sizes is swept
+            // (supplementary schedule source; the verdict rests on the seeded search)
+            stream.truncate(rng.range(6, 12));
+            if !stream.ends_with(b"\n") {
+                stream.push(b'\n');
+            }
+        }
         let mut sc = Scenario { prop: "C07".into(), seed, iface, cap, n, stream, ..Default::default() };
+        if sweep {
+            sc.set("all_compositions", 1);
+        }
         // schedule 0 is the reference: largest possible reads, no suspension
         sc.scheds.push(Sched::default());
         let k = rng.range(4, if thorough { 16 } else { 8 });
@@ -85,6 +97,36 @@ impl Prop for C07T {
                 differing_schedules += 1;
             }
             carry |= o.events.iter().any(|e| matches!(e, Ev::TRead { room, ok: true, .. } if *room < sc.n));
+        }
+        if sc.flag("all_compositions") && stream.len() <= 13 && !stream.is_empty() {
+            let len = stream.len();
+            for mask in 0u32..(1u32 << (len - 1)) {
+                // bit i set = a read boundary after byte i
+                let mut chunks = Vec::new();
+                let mut run_len = 1u32;
+                for i in 0..len - 1 {
+                    if mask & (1 << i) != 0 {
+                        chunks.push(run_len);
+                        run_len = 1;
+                    } else {
+                        run_len += 1;
+                    }
+                }
+                chunks.push(run_len);
+                let mut ex = process_exec(sc, stream.clone(), 0);
+                ex.chunks = chunks.clone();
+                let o = exec(&ex, st);
+                if o.crashed() {
+                    return Verdict::Skip("skip:crashed(C05)");
+                }
+                if let Some(what) = logs_differ(&r, &o) {
+                    return Verdict::Violation {
+                        class: "schedule-dependent".into(),
+                        detail: format!("{what} differ between the reference schedule and read sizes {chunks:?} (composition sweep)\n    reference:{}\n    this     :{}", brief(&r), brief(&o)),
+                    };
+                }
+            }
+            st.bump("reach:all_compositions_swept");
         }
         // second sentence: equal to run, one message at a time
         let splits = newline_splits(&stream);
@@ -133,6 +175,6 @@ impl Prop for C07T {
         ]
     }
     fn probes(&self) -> Vec<&'static str> {
-        vec!["fired:empty_read", "fired:exact_fill_read", "fired:one_byte_read", "reach:overflow_reset", "reach:carry_over", "reach:compared_with_run_per_message", "fired:suspension"]
+        vec!["fired:empty_read", "fired:exact_fill_read", "fired:one_byte_read", "reach:overflow_reset", "reach:carry_over", "reach:compared_with_run_per_message", "reach:all_compositions_swept", "fired:suspension"]
     }
 }
